@@ -34,8 +34,10 @@ VARIABLES
     st,      \* abstract server state (Dav!InitSt shape)
     hist,    \* collection |-> sequence of snapshots (one per commit)
     rq,      \* the request of the last step (history variable: what to replay)
-    resp     \* class of the last response: "ok" or a failure class
-vars == <<st, hist, rq, resp>>
+    resp,    \* class of the last response: "ok" or a failure class
+    env      \* what the environment does to the server: [locked : collections whose index lock
+             \* somebody else holds (another writer, a crashed one), full : the disk is full]
+vars == <<st, hist, rq, resp, env>>
 
 \* validator of (c, n) in the abstract model: the stored body itself
 CurTag(c, n) == IF IsLive(st, c, n) THEN st.store[c][n] ELSE NoTag
@@ -55,12 +57,14 @@ Conds(c, n) ==
                     [present |-> TRUE, star |-> FALSE, tags |-> {oth, cur}]})
 
 NoRq == [op |-> "Init"]
+NoEnv == [locked |-> {}, full |-> FALSE]
 
 Init ==
     /\ st = InitSt
     /\ hist = EmptyFn
     /\ rq = NoRq
     /\ resp = "ok"
+    /\ env = NoEnv
 
 \* Apply an outcome: the server either does what it must, or (when it must
 \* fail) answers with one of the admissible classes and changes nothing.
@@ -78,24 +82,32 @@ Apply(o, c) ==
            /\ resp' \in o.fail
            /\ UNCHANGED <<st, hist>>
 
+\* a write that meets a held lock or a full disk may go through (not every back end takes that
+\* lock; a full disk still has room for some writes) or is refused - then without any effect
+EnvRefuse(c) ==
+    /\ \/ c \in env.locked /\ resp' = "locked"
+       \/ env.full /\ resp' = "error"
+    /\ UNCHANGED <<st, hist>>
+ApplyE(o, c) == UNCHANGED env /\ (Apply(o, c) \/ EnvRefuse(c))
+
 Put(c, n, b, im, inm) ==
     /\ NKind(n) = BKind(b)
     /\ rq' = [op |-> "Put", c |-> c, n |-> n, b |-> b, im |-> im, inm |-> inm]
-    /\ Apply(PutOutcome(st, rq', CurTag(c, n)), c)
+    /\ ApplyE(PutOutcome(st, rq', CurTag(c, n)), c)
 
 Post(c, n, b) ==
     /\ NKind(n) = BKind(b)
     /\ ~IsLive(st, c, n)
     /\ rq' = [op |-> "Post", c |-> c, n |-> n, b |-> b]
-    /\ Apply(PostOutcome(st, rq'), c)
+    /\ ApplyE(PostOutcome(st, rq'), c)
 
 Delete(c, n, im) ==
     /\ rq' = [op |-> "Delete", c |-> c, n |-> n, im |-> im]
-    /\ Apply(DeleteOutcome(st, rq', CurTag(c, n)), c)
+    /\ ApplyE(DeleteOutcome(st, rq', CurTag(c, n)), c)
 
 Mk(c, k) ==
     /\ rq' = [op |-> "Mk", c |-> c, kind |-> k]
-    /\ Apply(MkOutcome(st, rq'), c)
+    /\ ApplyE(MkOutcome(st, rq'), c)
 
 \* the validator of a collection is (a function of) its snapshot; 1 stands for "the current
 \* one", 2 for any other value
@@ -104,7 +116,7 @@ CollConds == {NoCond, [present |-> TRUE, star |-> TRUE, tags |-> {}],
               [present |-> TRUE, star |-> FALSE, tags |-> {1, 2}]}
 DeleteColl(c, im) ==
     /\ rq' = [op |-> "DeleteColl", c |-> c, im |-> im]
-    /\ Apply(DeleteCollOutcome(st, rq', IF Exists(st, c) THEN 1 ELSE NoTag), c)
+    /\ ApplyE(DeleteCollOutcome(st, rq', IF Exists(st, c) THEN 1 ELSE NoTag), c)
 
 \* one PROPPATCH request: a sequence of 1..MaxInstr instructions, in document order; the
 \* instructions on properties the collection kind does not support are refused individually
@@ -114,22 +126,39 @@ Proppatch(c, ins) ==
     /\ rq' = [op |-> "Proppatch", c |-> c, ins |-> ins]
     /\ LET done == IF Exists(st, c) THEN SelectSeq(ins, LAMBDA x : PropOK(st.colls[c], x.p)) ELSE ins IN
        IF Exists(st, c) /\ done = <<>>
-         THEN resp' = "refused" /\ UNCHANGED <<st, hist>>      \* per-property refusal
-         ELSE Apply(ProppatchOutcome(st, [c |-> c, ins |-> done]), c)
+         THEN resp' = "refused" /\ UNCHANGED <<st, hist, env>>      \* per-property refusal
+         ELSE ApplyE(ProppatchOutcome(st, [c |-> c, ins |-> done]), c)
 
 Retype(c, k) ==
     /\ rq' = [op |-> "Retype", c |-> c, kind |-> k]
-    /\ Apply(RetypeOutcome(st, rq'), c)
+    /\ ApplyE(RetypeOutcome(st, rq'), c)
 
 Restart(defaults) ==
     /\ rq' = [op |-> "Restart", defaults |-> defaults]
     /\ resp' = "ok"
+    /\ env' = [env EXCEPT !.full = FALSE]      \* (the administrator made room before starting it)
     /\ LET o == RestartOutcome(st, defaults)
            new == DOMAIN o.st.colls \ DOMAIN st.colls IN
        /\ st' = o.st
        /\ hist' = [c \in DOMAIN hist \cup new |-> IF c \in new THEN <<Snapshot(o.st, c)>> ELSE hist[c]]
 
+\* environment actions
+Lock(c) ==
+    /\ Exists(st, c) /\ c \notin env.locked
+    /\ rq' = [op |-> "Lock", c |-> c] /\ resp' = "ok"
+    /\ env' = [env EXCEPT !.locked = @ \cup {c}] /\ UNCHANGED <<st, hist>>
+Unlock(c) ==
+    /\ c \in env.locked
+    /\ rq' = [op |-> "Unlock", c |-> c] /\ resp' = "ok"
+    /\ env' = [env EXCEPT !.locked = @ \ {c}] /\ UNCHANGED <<st, hist>>
+DiskFull(on) ==
+    /\ env.full # on
+    /\ rq' = [op |-> "DiskFull", on |-> on] /\ resp' = "ok"
+    /\ env' = [env EXCEPT !.full = on] /\ UNCHANGED <<st, hist>>
+
 Next ==
+    \/ \E c \in Coll : Lock(c) \/ Unlock(c)
+    \/ \E on \in BOOLEAN : DiskFull(on)
     \/ \E c \in Coll, n \in Name, b \in Body :
          \E im \in Conds(c, n), inm \in Conds(c, n) :     \* also both headers on one request
             Put(c, n, b, im, inm)
@@ -154,6 +183,7 @@ InitSim ==
     /\ hist = [c \in Coll |-> <<Snapshot(SimSt, c)>>]
     /\ rq = NoRq
     /\ resp = "ok"
+    /\ env = NoEnv
 SpecSim == InitSim /\ [][Next]_vars
 
 ----------------------------------------------------------------------------
@@ -163,6 +193,7 @@ TypeOK ==
     /\ DOMAIN st.colls \subseteq Coll
     /\ DOMAIN st.store = DOMAIN st.colls
     /\ DOMAIN st.props = DOMAIN st.colls
+    /\ env.locked \subseteq Coll /\ env.full \in BOOLEAN
     /\ \A c \in DOMAIN st.colls :
           /\ st.colls[c] \in Kinds
           /\ DOMAIN st.store[c] \subseteq Name
